@@ -91,6 +91,8 @@ type Spec struct {
 	Stdin  Bytes      `json:"stdin,omitempty"`
 	Faults []Fault    `json:"faults,omitempty"`
 	Knobs  Knobs      `json:"knobs"`
+	// Env is the environment of the process (PWD defaults to Cwd).
+	Env map[string]string `json:"env,omitempty"`
 }
 
 // Clone makes a deep copy.
@@ -104,5 +106,11 @@ func (s Spec) Clone() Spec {
 	c.Args = append([]string(nil), s.Args...)
 	c.Stdin = append(Bytes(nil), s.Stdin...)
 	c.Faults = append([]Fault(nil), s.Faults...)
+	if s.Env != nil {
+		c.Env = map[string]string{}
+		for k, v := range s.Env {
+			c.Env[k] = v
+		}
+	}
 	return c
 }
